@@ -315,3 +315,23 @@ func VerifHarness_C09_settings() {
 	}
 	verifObserve("ok", verifIteInt(err == nil, 1, 0))
 }
+
+func init() { verifRegister("C09_length", VerifHarness_C09_length) }
+
+// C09_length: the stream framing parser on a message whose BodyLength is ANY decimal text of up to 19 digits
+// (exact 64-bit wrap-around: this harness runs in the bit-vector encoding).
+func VerifHarness_C09_length() {
+	nd := verifConc(ndInt("digits", 1, 19))
+	d := ndBytes("len", nd)
+	for _, c := range d {
+		verifAssume(c >= '0' && c <= '9')
+	}
+	stream := []byte("8=F\x019=")
+	stream = append(stream, d...)
+	stream = append(stream, []byte("\x0135=D\x0110=000\x01")...)
+	p := &parser{reader: &c12Uniform{data: stream, k: len(stream)}}
+	b, err := p.ReadMessage()
+	if err == nil {
+		verifAssert(b != nil, "frame-or-error")
+	}
+}
